@@ -226,7 +226,9 @@ var BlockMutations = []BlockMutation{
 			b.Signature = make([]byte, 64)
 			return true
 		}
-		switch w.R.T.Choose(3) {
+		switch w.R.T.Choose(4) {
+		case 3:
+			b.Signature = append(append([]byte(nil), b.Signature...), w.R.T.Bytes(1+w.R.T.Choose(8))...)
 		case 0:
 			s := append([]byte(nil), b.Signature...)
 			s[w.R.T.Choose(len(s))] ^= byte(1 << w.R.T.Choose(8))
